@@ -23,6 +23,7 @@ meta['confirmed_here'] = {
     'check_exit': conf['check']['rc'],
     'check_caught': conf['caught'],
     'check_lines': conf['check']['lines'][:3],
+    'check_seeds': conf['check'].get('seeds'),
 }
 if len(sys.argv) > 3:
     meta['confirmed_here']['note'] = sys.argv[3]
